@@ -1,4 +1,5 @@
 import SparseSpace.Model.Quad
+import SparseSpace.Model.QuadLeja
 import SparseSpace.Drive.Util
 /-! Line-protocol driver for the local quadrature model (C08).
 
@@ -10,6 +11,9 @@ import SparseSpace.Drive.Util
         → <rational>      (Σ_i w_i Π_d x_{i,d}^{k_d}; `len-mismatch p w` if points and weights do not pair)
     gl <start> <stop> <xi1,xi2,..> <om1,om2,..>
         → P [..] W [..]   (the affine map of GaussLegendreGrid1D applied to given reference nodes / weights)
+    leja <start> <stop> <t1,t2,..>
+        → P [..] W [..] legendre=<ok|FAIL>   (LejaGrid1D on given reference points in [0,1]; `no-solution` if the
+          certified exact solve fails, e.g. repeated points)
 -/
 namespace SparseSpace.Drive.C08
 open SparseSpace SparseSpace.Drive SparseSpace.Quad
@@ -73,6 +77,16 @@ def step (_ : Unit) (line : String) : Unit × String :=
       if xi.length ≠ om.length || xi.length == 0 then ((), "bad-op")
       else ((), s!"P {fmtRatVec (glPoints xi s (e - s))} W {fmtRatVec (glWeights om (e - s))}")
     | _, _, _, _ => ((), "bad-op")
+  | ["leja", s, e, ts] =>
+    match parseRat? s, parseRat? e, parseRatVec? ts with
+    | some s, some e, some ts =>
+      if ts.length == 0 then ((), "bad-op") else
+      match lejaRefWeights ts with
+      | none => ((), "no-solution")
+      | some w =>
+        let leg := if codeSystemOk ts w then "ok" else "FAIL"
+        ((), s!"P {fmtRatVec (lejaPoints ts s (e - s))} W {fmtRatVec (lejaWeights w (e - s))} legendre={leg}")
+    | _, _, _ => ((), "bad-op")
   | _ => ((), "bad-op")
 
 end SparseSpace.Drive.C08
